@@ -1,4 +1,4 @@
-import Gp.Lemmas.ReasmLimit
+import Gp.Lemmas.ReasmAge
 /-
   C11 (reassembly half) — Assembler stream lifecycle and buffering are bounded and leak-free.
 
@@ -10,6 +10,15 @@ import Gp.Lemmas.ReasmLimit
   (a Go panic aborts the history).  The model is of the tree with fixes reasm-5/6 (pages kept by KeepFrom
   are released at close and counted) — on the unfixed tree `flushall_empties` fails (monitor
   `reasm:flushall-pages-used`).
+
+  Vocabulary (`Gp/Model/ReasmSpec.lean`): the callbacks of a run are the event log `evs : List Ev`
+  (`created conn sid` = StreamFactory.New returned stream `sid` for flow `conn`; `sg conn sid dir g` = one
+  ReassembledSG call; `done conn sid answer` = ReassemblyComplete and what the stream answered).
+  `life sid .fresh evs = some l` runs the log through the life-cycle automaton of stream `sid`
+  (fresh --New--> alive --ReassembledSG*--> alive --ReassemblyComplete--> done; any other callback that
+  mentions the stream makes the result `none`).  `Conn.done` = both directions closed.
+  Accept is an input of the model (`acc`): a stream that was completed and refused the removal is still asked,
+  but nothing is delivered to it.
 -/
 namespace Gp.C11.Reasm
 open Gp Gp.Reasm
@@ -62,7 +71,132 @@ theorem flushall_empties (A : Arith) (ops : List Op) (keep : KeepRule) (cmpl : C
         exact ih (fun x hx => hl x (List.mem_cons_of_mem _ hx))
     exact this _ hcl
 
-/-! ### the page limit -/
+/-! ## 1. Lifecycle: New, data, ReassemblyComplete exactly once, nothing after it -/
+
+/-- **stream_lifecycle.**  After every history the event log, read for any one stream id, is a legal life:
+    * an id the factory has not handed out yet is mentioned by no callback;
+    * the stream of a connection that is in the pool was created once, got only ReassembledSG calls since, and
+      has been completed (once, as the last callback that mentions it) exactly if both directions of the
+      connection are closed — the moment the code calls ReassemblyComplete: FIN/RST delivered in both directions,
+      age-based close, or FlushAll;
+    * a stream whose connection has left the pool has been completed, and nothing followed. -/
+theorem stream_lifecycle (A : Arith) (ops : List Op) (st : St) (evs : List Ev)
+    (h : run A {} ops = .ok (st, evs)) (sid : Nat) :
+    (st.nextSid ≤ sid → ∀ e ∈ evs, Ev.mentions sid e = false) ∧
+    (∀ c ∈ st.conns, c.sid = sid → sid < st.nextSid ∧ life sid .fresh evs = some (Life.ofDone c.done)) ∧
+    (sid < st.nextSid → (∀ c ∈ st.conns, c.sid ≠ sid) → life sid .fresh evs = some .done) := by
+  have hl := run_linv A ops {} st [] evs inv_init_pool linv_init h
+  simp only [List.nil_append] at hl
+  exact ⟨hl.fresh sid, fun c hc hs => hs ▸ ⟨hl.lt c hc, hl.live c hc⟩, hl.gone sid⟩
+
+/-- **complete_exactly_once.**  For every stream id: ReassemblyComplete is called at most once; StreamFactory.New
+    produced it exactly once iff the id was handed out; and it HAS been called (exactly once) precisely when the
+    stream was created and its connection is finished — both directions closed, or already removed from the pool. -/
+theorem complete_exactly_once (A : Arith) (ops : List Op) (st : St) (evs : List Ev)
+    (h : run A {} ops = .ok (st, evs)) (sid : Nat) :
+    doneCount sid evs ≤ 1 ∧ createdCount sid evs = (if sid < st.nextSid then 1 else 0) ∧
+    (doneCount sid evs = 1 ↔
+      (sid < st.nextSid ∧ ∀ c ∈ st.conns, c.sid = sid → c.c2s.closed = true ∧ c.s2c.closed = true)) := by
+  obtain ⟨h1, h2, h3⟩ := stream_lifecycle A ops st evs h sid
+  by_cases hlt : sid < st.nextSid
+  · by_cases hex : ∃ c ∈ st.conns, c.sid = sid
+    · obtain ⟨c, hc, hs⟩ := hex
+      obtain ⟨_, hlife⟩ := h2 c hc hs
+      have hd := life_doneCount sid evs _ _ hlife
+      have hcr := life_createdCount sid evs _ _ hlife
+      have hl := run_linv A ops {} st [] evs inv_init_pool linv_init h
+      have hinv := run_inv A ops {} st evs inv_init_pool h
+      cases hdn : c.done with
+      | true =>
+        rw [hdn] at hd hcr
+        simp [Life.ofDone] at hd hcr
+        refine ⟨by omega, by rw [hcr, if_pos hlt], fun _ => ⟨hlt, fun d hdm hds => ?_⟩, fun _ => hd⟩
+        have : d = c := ids_unique hinv.ids hdm hc (hl.inj d hdm c hc (by rw [hds, hs]))
+        subst this
+        simpa [Conn.done] using hdn
+      | false =>
+        rw [hdn] at hd hcr
+        simp [Life.ofDone] at hd hcr
+        refine ⟨by omega, by rw [hcr, if_pos hlt], fun h1' => by omega, fun h' => ?_⟩
+        have := h'.2 c hc hs
+        simp [Conn.done, this.1, this.2] at hdn
+    · have hno : ∀ c ∈ st.conns, c.sid ≠ sid := fun c hc hs => hex ⟨c, hc, hs⟩
+      have hlife := h3 hlt hno
+      have hd := life_doneCount sid evs _ _ hlife
+      have hcr := life_createdCount sid evs _ _ hlife
+      simp at hd hcr
+      exact ⟨by omega, by rw [hcr, if_pos hlt], fun _ => ⟨hlt, fun c hc hs => absurd hs (hno c hc)⟩, fun _ => hd⟩
+  · have hlife : life sid .fresh evs = some .fresh := life_irrelevant sid evs .fresh (h1 (by omega))
+    have hd := life_doneCount sid evs _ _ hlife
+    have hcr := life_createdCount sid evs _ _ hlife
+    simp at hd hcr
+    exact ⟨by omega, by rw [hcr, if_neg hlt], fun h' => by omega, fun h' => absurd h'.1 hlt⟩
+
+/-- **no_data_after_complete.**  Nothing that concerns a stream — no ReassembledSG, no second
+    ReassemblyComplete, no re-creation — follows its ReassemblyComplete in the event log. -/
+theorem no_data_after_complete (A : Arith) (ops : List Op) (st : St) (evs : List Ev)
+    (h : run A {} ops = .ok (st, evs)) (sid k : Nat) (a : Bool) (pre post : List Ev)
+    (e : evs = pre ++ Ev.done k sid a :: post) : ∀ x ∈ post, Ev.mentions sid x = false := by
+  have hlife : ∃ l, life sid .fresh evs = some l := by
+    obtain ⟨h1, h2, h3⟩ := stream_lifecycle A ops st evs h sid
+    by_cases hlt : sid < st.nextSid
+    · by_cases hex : ∃ c ∈ st.conns, c.sid = sid
+      · obtain ⟨c, hc, hs⟩ := hex
+        exact ⟨_, (h2 c hc hs).2⟩
+      · exact ⟨_, h3 hlt (fun c hc hs => hex ⟨c, hc, hs⟩)⟩
+    · exact ⟨_, life_irrelevant sid evs .fresh (h1 (by omega))⟩
+  obtain ⟨l, hl⟩ := hlife
+  rw [e] at hl
+  exact life_after_done sid hl
+
+/-- Nothing concerns a stream before StreamFactory.New returned it. -/
+theorem nothing_before_created (A : Arith) (ops : List Op) (st : St) (evs : List Ev)
+    (h : run A {} ops = .ok (st, evs)) (sid k : Nat) (pre post : List Ev)
+    (e : evs = pre ++ Ev.created k sid :: post) : ∀ x ∈ pre, Ev.mentions sid x = false := by
+  have hlife : ∃ l, life sid .fresh evs = some l := by
+    obtain ⟨h1, h2, h3⟩ := stream_lifecycle A ops st evs h sid
+    by_cases hlt : sid < st.nextSid
+    · by_cases hex : ∃ c ∈ st.conns, c.sid = sid
+      · obtain ⟨c, hc, hs⟩ := hex
+        exact ⟨_, (h2 c hc hs).2⟩
+      · exact ⟨_, h3 hlt (fun c hc hs => hex ⟨c, hc, hs⟩)⟩
+    · exact ⟨_, life_irrelevant sid evs .fresh (h1 (by omega))⟩
+  obtain ⟨l, hl⟩ := hlife
+  rw [e] at hl
+  exact life_before_created sid hl
+
+/-- **complete_by_final_flushall.**  When the history ends with FlushAll, every stream the factory ever created has
+    got its ReassemblyComplete — exactly once; and a connection is still in the pool only if its stream answered
+    that one call with `false` (refused the removal): no connection whose stream accepted removal remains. -/
+theorem complete_by_final_flushall (A : Arith) (ops : List Op) (keep : KeepRule) (cmpl : CmplRule) (st : St)
+    (evs : List Ev) (h : run A {} (ops ++ [.flushAll keep cmpl]) = .ok (st, evs)) :
+    (∀ sid, sid < st.nextSid → doneCount sid evs = 1) ∧
+    (∀ c ∈ st.conns, Ev.done c.id c.sid false ∈ evs ∧ doneCount c.sid evs = 1) := by
+  have hcl := (flushall_empties A ops keep cmpl st evs h).2.1
+  have hall : ∀ sid, sid < st.nextSid → doneCount sid evs = 1 := fun sid hlt =>
+    (complete_exactly_once A _ st evs h sid).2.2.mpr ⟨hlt, fun c hc _ => hcl c hc⟩
+  have hl := run_linv A _ {} st [] evs inv_init_pool linv_init h
+  simp only [List.nil_append] at hl
+  refine ⟨hall, fun c hc => ⟨hl.refused c hc ?_, hall c.sid (hl.lt c hc)⟩⟩
+  have := hcl c hc
+  simp [Conn.done, this.1, this.2]
+
+/-- non-vacuity: two connections; the first is ended by FIN in both directions (completed by the second FIN, stream
+    accepts removal), the second is completed by FlushAll and its stream refuses removal: it stays in the pool. -/
+def exLifeSeg (id : Nat) (dir : Bool) (seq : Int) (syn fin : Bool) (bytes : List UInt8) (cmpl : CmplRule) : Op :=
+  .seg id dir { seq := seq, syn := syn, fin := fin, rst := false, bytes := bytes, ts := 1 } 1 .none cmpl
+
+def exLifeOps : List Op :=
+  [ exLifeSeg 1 false 100 true false [] .yes, exLifeSeg 1 false 101 false true [7, 8] .yes,
+    exLifeSeg 1 true 500 true false [] .yes, exLifeSeg 2 false 900 true false [] .no,
+    exLifeSeg 1 true 501 false true [9] .yes, .flushAll .none .no ]
+
+example : (match run Arith.real {} exLifeOps with
+    | .ok (st, evs) => (st.nextSid, st.conns.map (fun c => (c.id, c.sid)), doneCount 0 evs, doneCount 1 evs,
+        createdCount 0 evs, decide (Ev.done 1 0 true ∈ evs), decide (Ev.done 2 1 false ∈ evs))
+    | _ => (0, [], 0, 0, 0, false, false)) = (2, [(2, 1)], 1, 1, 1, true, true) := by decide
+
+/-! ## 3. The page limit -/
 
 /-- number of pages a packet of `n` payload bytes occupies -/
 def pagesOf (n : Nat) : Nat := (n + pageBytes - 1) / pageBytes
@@ -132,5 +266,182 @@ example : (∀ op ∈ [cxSeg 1010 1, Op.flush 5 0 .none .yes, Op.flushAll .none 
   · show (List.replicate 1 (0 : UInt8)).length ≤ pageBytes; decide
   · trivial
   · trivial
+
+/-! ## 4. Age-based flush: FlushWithOptions{T, TC} / FlushCloseOlderThan -/
+
+/-- The age clause as the property reads: after `FlushWithOptions{T, TC}` (1) no connection of the pool still holds
+    a queued page seen before `T`; (2) every ReassembledSG call of the flush hands over a block of pages of the
+    connection's queue that starts with a page seen before `T` and continues only with pages that follow without
+    a gap (`OldGroup`): nothing newer than the cut-off is released except contiguously behind older data. -/
+def age_flush_precise_full : Prop :=
+  ∀ (ops : List Op) (st : St) (evs : List Ev), run Arith.real {} ops = .ok (st, evs) →
+  ∀ (t tc : Int) (keep : KeepRule) (cmpl : CmplRule) (rp : Reply),
+    step Arith.real st (.flush t tc keep cmpl) = .ok rp →
+    (∀ c ∈ rp.st.conns, (∀ p ∈ c.c2s.queue, ¬ p.seen < t) ∧ (∀ p ∈ c.s2c.queue, ¬ p.seen < t)) ∧
+    (∀ k s d g, Ev.sg k s d g ∈ rp.evs → ∃ c ∈ st.conns, k = c.id ∧ s = c.sid ∧
+        GroupIn Arith.real t (c.half (!d)).queue g)
+
+def cxAgeSeg (seq : Int) (syn : Bool) (bytes : List UInt8) (ts : Int) : Op :=
+  .seg 1 false { seq := seq, syn := syn, fin := false, rst := false, bytes := bytes, ts := ts } 1 .none .yes
+
+/-- SYN (next byte 101); byte 201 seen at time 50 is queued; byte 151 seen at time 100 is queued IN FRONT of it -/
+def cxAgeOps : List Op := [cxAgeSeg 100 true [] 0, cxAgeSeg 201 false [65] 50, cxAgeSeg 151 false [66] 100]
+
+/-- **The real code violates clause (1)** (the model reproduces it; known finding `reasm:age-flush:old-data-left`):
+    the queue is ordered by sequence number and the flush looks only at its first page; FlushWithOptions{T = 75}
+    sees the page of byte 151 (seen at 100, newer than the cut-off), stops, and leaves the page of byte 201 — seen
+    at 50, older than the cut-off — waiting. -/
+theorem age_flush_precise_counterexample : ¬ age_flush_precise_full := by
+  intro hfull
+  have hcomp : (match run Arith.real {} cxAgeOps with
+      | .ok (st, _) =>
+        (match step Arith.real st (.flush 75 0 .none .yes) with
+          | .ok rp => rp.st.conns.any (fun c => c.c2s.queue.any (fun p => decide (p.seen < 75)))
+          | _ => false)
+      | _ => false) = true := by decide
+  split at hcomp
+  · rename_i st evs h1
+    split at hcomp
+    · rename_i rp h2
+      obtain ⟨c, hc, hbad⟩ := List.any_eq_true.mp hcomp
+      obtain ⟨p, hp, hold⟩ := List.any_eq_true.mp hbad
+      exact ((hfull cxAgeOps st evs h1 75 0 .none .yes rp h2).1 c hc).1 p hp (by simpa using hold)
+    · cases hcomp
+  · cases hcomp
+
+/-- **age_flush_head (clause 1, what the code guarantees for older data).**  After FlushWithOptions{T, TC} in any
+    reachable state, the FIRST queued page of every half connection left in the pool was not seen before `T`:
+    whatever the connection still waits for lies in front of data that is not older than the cut-off. -/
+theorem age_flush_head_partial (ops : List Op) (st : St) (evs : List Ev) (h : run Arith.real {} ops = .ok (st, evs))
+    (t tc : Int) (keep : KeepRule) (cmpl : CmplRule) (rp : Reply)
+    (hs : step Arith.real st (.flush t tc keep cmpl) = .ok rp) :
+    ∀ c ∈ rp.st.conns, HeadNotOld t c.c2s.queue ∧ HeadNotOld t c.s2c.queue := by
+  have hinv := run_inv Arith.real ops {} st evs inv_init_pool h
+  intro x hx
+  obtain ⟨c, _, _, _, _, _, g1, g2, _⟩ := (opFlush_age Arith.real real_add_valid st t tc keep cmpl rp hinv hs).2 x hx
+  exact ⟨g2.head, g1.head⟩
+
+/-- **age_flush_sorted (clause 1 at full strength, under the hypothesis that excludes the defect).**  If in every
+    connection the queues are oldest-first (no page queued in front of a page seen earlier — e.g. segments that
+    arrive in sequence order behind a gap), no page seen before `T` is left after the flush. -/
+theorem age_flush_sorted_partial (ops : List Op) (st : St) (evs : List Ev) (h : run Arith.real {} ops = .ok (st, evs))
+    (t tc : Int) (keep : KeepRule) (cmpl : CmplRule) (rp : Reply)
+    (hs : step Arith.real st (.flush t tc keep cmpl) = .ok rp)
+    (hsorted : ∀ c ∈ st.conns, SeenSorted c.c2s.queue ∧ SeenSorted c.s2c.queue) :
+    ∀ c ∈ rp.st.conns, (∀ p ∈ c.c2s.queue, ¬ p.seen < t) ∧ (∀ p ∈ c.s2c.queue, ¬ p.seen < t) := by
+  have hinv := run_inv Arith.real ops {} st evs inv_init_pool h
+  intro x hx
+  obtain ⟨c, hc, _, _, _, _, g1, g2, _⟩ := (opFlush_age Arith.real real_add_valid st t tc keep cmpl rp hinv hs).2 x hx
+  obtain ⟨r1, hr1⟩ := g1.suffix
+  obtain ⟨r2, hr2⟩ := g2.suffix
+  have s1 := (hsorted c hc).2
+  have s2 := (hsorted c hc).1
+  rw [hr1] at s1
+  rw [hr2] at s2
+  exact ⟨headNotOld_sorted (seenSorted_suffix s2) g2.head, headNotOld_sorted (seenSorted_suffix s1) g1.head⟩
+
+example : SeenSorted ([{ seq := 150, bytes := [1], seen := 10, fin := false },
+                       { seq := 200, bytes := [2], seen := 20, fin := false }] : List Page) := by
+  simp [SeenSorted]
+
+/-- **age_flush_releases_old_only (clause 2, full).**  Every ReassembledSG call made by FlushWithOptions{T, TC} in
+    any reachable state delivers, as new data, exactly the bytes of a block of pages of that connection's queue
+    (as it was before the flush) whose first page was seen before `T` and whose further pages each follow the
+    previous one without a gap: data newer than the cut-off is released only contiguously behind older data. -/
+theorem age_flush_releases_old_only (ops : List Op) (st : St) (evs : List Ev)
+    (h : run Arith.real {} ops = .ok (st, evs)) (t tc : Int) (keep : KeepRule) (cmpl : CmplRule) (rp : Reply)
+    (hs : step Arith.real st (.flush t tc keep cmpl) = .ok rp) (k s : Nat) (d : Bool) (g : SG)
+    (hev : Ev.sg k s d g ∈ rp.evs) :
+    ∃ c ∈ st.conns, k = c.id ∧ s = c.sid ∧ GroupIn Arith.real t (c.half (!d)).queue g :=
+  (opFlush_age Arith.real real_add_valid st t tc keep cmpl rp
+    (run_inv Arith.real ops {} st evs inv_init_pool h) hs).1 k s d g hev
+
+/-- non-vacuity of clauses 1a/2: bytes 151 (seen 10), 152 (seen 60, contiguous) and 201 (seen 70) are queued behind
+    a gap; FlushWithOptions{T = 50} releases 151 and — contiguously — 152, and leaves 201. -/
+def exAgeOps : List Op := [cxAgeSeg 100 true [] 0, cxAgeSeg 151 false [66] 10, cxAgeSeg 152 false [67] 60,
+  cxAgeSeg 201 false [65] 70]
+
+example : (match run Arith.real {} exAgeOps with
+    | .ok (st, _) =>
+      (match step Arith.real st (.flush 50 0 .none .yes) with
+        | .ok rp => (rp.evs.map (fun e => match e with | .sg _ _ _ g => (g.skip, g.new) | _ => (0, [])),
+                     rp.st.conns.map (fun c => c.c2s.queue.map (fun p => (p.seq, p.seen))))
+        | _ => ([], []))
+    | _ => ([], [])) = ([(50, [66, 67])], [[(201, 70)]]) := by decide
+
+/-- **age_close_idle (TC, what is closed).**  After FlushWithOptions{T, TC} in any reachable state, a connection
+    that is still in the pool and was last seen (in both directions) before `TC` has a direction that is still open
+    AND still holds queued data: every direction with nothing left queued was closed (its stream completed once
+    both are), and a connection with both directions closed was removed from the pool whatever its stream
+    answered. -/
+theorem age_close_idle (ops : List Op) (st : St) (evs : List Ev) (h : run Arith.real {} ops = .ok (st, evs))
+    (t tc : Int) (keep : KeepRule) (cmpl : CmplRule) (rp : Reply)
+    (hs : step Arith.real st (.flush t tc keep cmpl) = .ok rp) :
+    ∀ c ∈ rp.st.conns, connLastSeen c < tc →
+      (c.c2s.closed = false ∧ c.c2s.queue ≠ []) ∨ (c.s2c.closed = false ∧ c.s2c.queue ≠ []) := by
+  have hinv := run_inv Arith.real ops {} st evs inv_init_pool h
+  intro x hx hidle
+  obtain ⟨c, _, _, _, _, _, g1, g2, g3⟩ := (opFlush_age Arith.real real_add_valid st t tc keep cmpl rp hinv hs).2 x hx
+  have hls : connLastSeen c = connLastSeen x := by simp only [connLastSeen, g1.seen, g2.seen]
+  have hboth : x.s2c.lastSeen < tc ∧ x.c2s.lastSeen < tc := by
+    simp only [connLastSeen] at hidle
+    split at hidle <;> constructor <;> omega
+  have i1 := g1.idle
+  have i2 := g2.idle
+  rw [hls] at i1 i2
+  cases hc1 : x.c2s.closed with
+  | false =>
+    left
+    refine ⟨rfl, ?_⟩
+    rcases i2 with i | i | i
+    · rw [hc1] at i; cases i
+    · exact i
+    · omega
+  | true =>
+    cases hc2 : x.s2c.closed with
+    | false =>
+      right
+      refine ⟨rfl, ?_⟩
+      rcases i1 with i | i | i
+      · rw [hc2] at i; cases i
+      · exact i
+      · omega
+    | true => exact absurd ⟨hc2, hc1, hboth.1, hboth.2⟩ g3
+
+/-- **age_close_spares_recent (TC, what is not closed).**  A connection seen at or after `TC` is not closed by age:
+    a direction of it that had nothing queued and is closed after the flush was closed before. -/
+theorem age_close_spares_recent (ops : List Op) (st : St) (evs : List Ev) (h : run Arith.real {} ops = .ok (st, evs))
+    (t tc : Int) (keep : KeepRule) (cmpl : CmplRule) (rp : Reply)
+    (hs : step Arith.real st (.flush t tc keep cmpl) = .ok rp) :
+    ∀ x ∈ rp.st.conns, ∃ c ∈ st.conns, x.id = c.id ∧ x.sid = c.sid ∧ (tc ≤ connLastSeen c →
+      (c.c2s.queue = [] → x.c2s.closed = true → c.c2s.closed = true) ∧
+      (c.s2c.queue = [] → x.s2c.closed = true → c.s2c.closed = true)) := by
+  have hinv := run_inv Arith.real ops {} st evs inv_init_pool h
+  intro x hx
+  obtain ⟨c, hc, sgs1, sgs2, hid, hsid, g1, g2, _⟩ :=
+    (opFlush_age Arith.real real_add_valid st t tc keep cmpl rp hinv hs).2 x hx
+  refine ⟨c, hc, hid, hsid, fun hrecent => ?_⟩
+  have key : ∀ (hh hh' : Half) (sgs : List SG), HalfAged Arith.real t tc (connLastSeen c) hh hh' sgs →
+      hh.queue = [] → hh'.closed = true → hh.closed = true := by
+    intro hh hh' sgs ha hq hcl
+    rcases ha.closedWhy hcl with w | w | ⟨g, hg, _⟩
+    · exact w
+    · omega
+    · obtain ⟨pre, grp, post, e1, p, run, e2, _⟩ := ha.groups g hg
+      rw [hq, e2] at e1
+      simp at e1
+  exact ⟨key _ _ _ g2, key _ _ _ g1⟩
+
+/-- non-vacuity of the TC clauses: connection 1 (last seen at 5, nothing queued) is closed, completed and removed by
+    FlushWithOptions{T = 0, TC = 10}; connection 2 (seen at 20) is untouched. -/
+example : (match run Arith.real {} [cxAgeSeg 100 true [] 5,
+      .seg 2 false { seq := 7, syn := true, fin := false, rst := false, bytes := [], ts := 20 } 1 .none .yes] with
+    | .ok (st, _) =>
+      (match step Arith.real st (.flush 0 10 .none .yes) with
+        | .ok rp => (rp.closed, rp.st.conns.map (fun c => (c.id, c.c2s.closed, c.s2c.closed)),
+                     rp.evs.map (fun e => match e with | .done k _ a => (k, a) | _ => (0, false)))
+        | _ => (0, [], []))
+    | _ => (0, [], [])) = (2, [(2, false, false)], [(1, true)]) := by decide
+
 
 end Gp.C11.Reasm
